@@ -3128,6 +3128,14 @@ class Mailbox:
         - `server`: the user server object
         """
         mbox = await server.get_mailbox(old_name)
+
+        # A mailbox can not be moved inside of itself.
+        #
+        if new_name.startswith(f"{mbox.name}/"):
+            raise InvalidMailbox(
+                f"Can not rename '{old_name}' to a mailbox inside of itself"
+            )
+
         # The mailbox we are moving to must not exist.
         #
         try:
